@@ -130,10 +130,11 @@ def task(args):
         classes.add((name, cls, st if st != 'raise' else 'raise:' + type(val).__name__))
         if st == 'overrun':
             v.append(('C11|%s|%s|no result within the work budget' % (name, cls),
-                      {'entry': name, 'hex': data.hex()[:300], 'len': len(data), 'steps': steps, 'budget': 300 + 60 * len(data)}))
+                      {'entry': name, 'hex': data.hex(), 'len': len(data), 'steps': steps, 'budget': 300 + 60 * len(data),
+                       'must_not_raise': must_not_raise}))
         elif st == 'raise' and must_not_raise:
             v.append(('C11|%s|%s|raised %s instead of returning a result with an error sub-code' % (name, cls, type(val).__name__),
-                      {'entry': name, 'hex': data.hex()[:300], 'error': str(val)[:200]}))
+                      {'entry': name, 'hex': data.hex(), 'error': str(val)[:200], 'must_not_raise': True}))
         return st, val
 
     def in_range(body):
@@ -294,11 +295,11 @@ def run(tier, seed):
     explore.close_pool()
     total = 0
     classes = set()
-    for n, v, cl in res:
+    for t, (n, v, cl) in zip(tasks, res):
         total += n
         classes |= cl
         for k, det in v:
-            col.add(k, det, det)
+            col.add(k, det, dict(det, hex=det['hex'][:300]), task=t)
     n_new, n_known, summary = col.finish('c11-input')
     cov = {
         'evaluations': total, 'distinct_nontrivial': len(classes),
@@ -327,12 +328,13 @@ def replay(path):
     w = d['witness']
     ep = entry_points()
     data = bytes.fromhex(w['hex'])
-    if len(w['hex']) >= 300:
-        print('witness was truncated to 150 octets; replaying the prefix')
-    r = [run_one(ep[w['entry']], data) for _ in range(2)]
-    print('entry point', w['entry'], 'input', w['hex'])
+    r = [(x[0], x[1] if x[0] != 'ok' else repr(x[1])[:300], x[2]) for x in report.twice(lambda: (lambda y: (y[0], y[1] if y[0] != 'ok' else repr(y[1])[:300], y[2]))(run_one(ep[w['entry']], data)))]
+    print('entry point', w['entry'], 'input (%d octets)' % len(data), w['hex'][:600])
     print('outcome:', r[0][0], repr(r[0][1])[:300], 'steps', r[0][2], 'budget', 300 + 60 * len(data))
     if (r[0][0], r[0][2]) != (r[1][0], r[1][2]):
         print('HARNESS-ERROR: replay is not deterministic')
         return 2
-    return 1 if r[0][0] in ('overrun', 'raise') else 0
+    want = 'overrun' if 'work budget' in d['key'] else 'raise'
+    if r[0][0] == want and (want == 'overrun' or (w.get('must_not_raise') and type(r[0][1]).__name__ in d['key'])):
+        return 1
+    return report.replay_in_task(d, task, lambda r_: [k for k, _ in r_[1]])
